@@ -12,8 +12,16 @@ Definition binds (sc : scope) (x : string) (w : Z) : Prop := exists i sg, lookup
 Definition scope_ok (E : env) (sc : scope) : Prop :=
   forall x k w, In (x, k) E -> kwidth k = Some w -> binds sc x w.
 
+(* a declared memory is bound to its block of word nets *)
+Definition mem_ok (E : env) (sc : scope) : Prop :=
+  forall x w dp, In (x, KMem w dp) E -> exists base, lookup sc x = Some (BMem base w (Z.to_nat dp)).
+
+(* no parameters; every memory has at least one word *)
 Definition plain_env (E : env) : Prop :=
-  (forall x, ~ In (x, KParam) E) /\ (forall x w dp, ~ In (x, KMem w dp) E).
+  (forall x, ~ In (x, KParam) E) /\ (forall x w dp, In (x, KMem w dp) E -> 1 <= dp).
+
+Lemma to_nat_S : forall dp, 1 <= dp -> exists n, Z.to_nat dp = S n.
+Proof. intros dp H. exists (Z.to_nat dp - 1)%nat. lia. Qed.
 
 Lemma readable_width : forall E x k, plain_env E -> In (x, k) E -> readable k = true -> exists w, kwidth k = Some w.
 Proof.
@@ -27,15 +35,16 @@ Proof.
 Qed.
 
 (* ---------------------------------------------------------------- resolution never fails *)
-Lemma res_expr_total : forall E sc e, plain_env E -> scope_ok E sc -> expr_ok E e -> exists r, res_expr sc e = Some r.
+Lemma res_expr_total : forall E sc e, plain_env E -> scope_ok E sc -> mem_ok E sc -> expr_ok E e -> exists r, res_expr sc e = Some r.
 Proof.
-  intros E sc e PE SO H. induction H as [x k HI R|n|w n Hw|x k w i HI K Hw Hi IHi Hc|x w dp i HI Hi IHi Hc|x k w hi lo HI K|o a Ha IHa|
+  intros E sc e PE SO MO H. induction H as [x k HI R|n|w n Hw|x k w i HI K Hw Hi IHi Hc|x w dp i HI Hi IHi Hc|x k w hi lo HI K|o a Ha IHa|
                                        o a b Ha IHa Hb IHb|c a b Hc IHc Ha IHa Hb IHb|a b Ha IHa Hb IHb|n a Hn Ha IHa|a Ha IHa]; simpl.
   - destruct (readable_width _ _ _ PE HI R) as [w K]. destruct (SO _ _ _ HI K) as (i & sg & L). rewrite L. eauto.
   - eauto.
   - eauto.
   - destruct (SO _ _ _ HI K) as (j & sg & L). rewrite L. destruct IHi as [i' ->]. eauto.
-  - exfalso. destruct PE as [_ P2]. exact (P2 _ _ _ HI).
+  - destruct (MO _ _ _ HI) as [base L]. rewrite L. destruct IHi as [i' ->].
+    destruct (to_nat_S dp (proj2 PE _ _ _ HI)) as [n ->]. eauto.
   - destruct (SO _ _ _ HI K) as (j & sg & L). rewrite L. eauto.
   - destruct IHa as [a' ->]. simpl. eauto.
   - destruct IHa as [a' ->]. destruct IHb as [b' ->]. eauto.
@@ -45,24 +54,30 @@ Proof.
   - destruct IHa as [a' ->]. simpl. eauto.
 Qed.
 
-Lemma res_lval_total : forall E sc proc l, plain_env E -> scope_ok E sc -> lval_ok E proc l -> exists r, res_lval sc l = Some r.
+(* an l-value resolves to a net target, or (procedural code only) it is a memory word and the write resolves to the word-select chain *)
+Lemma res_lval_total : forall E sc proc l, plain_env E -> scope_ok E sc -> mem_ok E sc -> lval_ok E proc l ->
+  (exists r, res_lval sc l = Some r) \/
+  (proc = true /\ res_lval sc l = None /\ forall nb e', exists r, res_mem_write sc nb l e' = Some r).
 Proof.
-  intros E sc proc l PE SO H. destruct H as [x k HI T|x k w hi lo HI T K|x k w i HI T K Hw Hi Hc Hp|x w dp i Hp HI Hi Hc]; simpl.
-  - destruct (target_width _ _ T) as [w K]. destruct (SO _ _ _ HI K) as (j & sg & L). rewrite L. eauto.
-  - destruct (SO _ _ _ HI K) as (j & sg & L). rewrite L. eauto.
-  - destruct (SO _ _ _ HI K) as (j & sg & L). rewrite L.
-    destruct (res_expr_total _ _ _ PE SO Hi) as [i' ->]. eauto.
-  - exfalso. destruct PE as [_ P2]. exact (P2 _ _ _ HI).
+  intros E sc proc l PE SO MO H. destruct H as [x k HI T|x k w hi lo HI T K|x k w i HI T K Hw Hi Hc Hp|x w dp i Hp HI Hi Hc]; simpl.
+  - left. destruct (target_width _ _ T) as [w K]. destruct (SO _ _ _ HI K) as (j & sg & L). rewrite L. eauto.
+  - left. destruct (SO _ _ _ HI K) as (j & sg & L). rewrite L. eauto.
+  - left. destruct (SO _ _ _ HI K) as (j & sg & L). rewrite L.
+    destruct (res_expr_total _ _ _ PE SO MO Hi) as [i' ->]. eauto.
+  - right. destruct (MO _ _ _ HI) as [base L]. rewrite L.
+    destruct (res_expr_total _ _ _ PE SO MO Hi) as [i' ->]. repeat split; eauto.
 Qed.
 
-Lemma res_stmt_total : forall E sc s, plain_env E -> scope_ok E sc -> stmt_ok E s -> exists r, res_stmt sc s = Some r.
+Lemma res_stmt_total : forall E sc s, plain_env E -> scope_ok E sc -> mem_ok E sc -> stmt_ok E s -> exists r, res_stmt sc s = Some r.
 Proof.
-  intros E sc s PE SO H. induction H as [|a b Ha IHa Hb IHb|c t e Hc Ht IHt He IHe|l e Hl He|l e Hl He]; simpl.
+  intros E sc s PE SO MO H. induction H as [|a b Ha IHa Hb IHb|c t e Hc Ht IHt He IHe|l e Hl He|l e Hl He]; simpl.
   - eauto.
   - destruct IHa as [a' ->]. destruct IHb as [b' ->]. eauto.
-  - destruct (res_expr_total _ _ _ PE SO Hc) as [c' ->]. destruct IHt as [t' ->]. destruct IHe as [e' ->]. eauto.
-  - destruct (res_lval_total _ _ _ _ PE SO Hl) as [l' ->]. destruct (res_expr_total _ _ _ PE SO He) as [e' ->]. eauto.
-  - destruct (res_lval_total _ _ _ _ PE SO Hl) as [l' ->]. destruct (res_expr_total _ _ _ PE SO He) as [e' ->]. eauto.
+  - destruct (res_expr_total _ _ _ PE SO MO Hc) as [c' ->]. destruct IHt as [t' ->]. destruct IHe as [e' ->]. eauto.
+  - destruct (res_expr_total _ _ _ PE SO MO He) as [e' ->].
+    destruct (res_lval_total _ _ _ _ PE SO MO Hl) as [[l' ->]|(_ & -> & W)]; [eauto|apply W].
+  - destruct (res_expr_total _ _ _ PE SO MO He) as [e' ->].
+    destruct (res_lval_total _ _ _ _ PE SO MO Hl) as [[l' ->]|(_ & -> & W)]; [eauto|apply W].
 Qed.
 
 (* ---------------------------------------------------------------- building scopes *)
@@ -80,44 +95,24 @@ Definition decl_names (items : list item) : list string := map fst (flat_map ite
 Lemma declare_spec : forall items prefix sc acc sc' acc',
   declare prefix items sc acc = (sc', acc') ->
   (forall x, ~ In x (decl_names items) -> lookup sc' x = lookup sc x) /\
-  (NoDup (decl_names items) -> forall x k w, In (x, k) (flat_map item_decl items) -> kwidth k = Some w -> binds sc' x w).
+  (NoDup (decl_names items) -> forall x k w, In (x, k) (flat_map item_decl items) -> kwidth k = Some w -> binds sc' x w) /\
+  (NoDup (decl_names items) -> forall x w dp, In (x, KMem w dp) (flat_map item_decl items) ->
+                               exists base, lookup sc' x = Some (BMem base w (Z.to_nat dp))).
 Proof.
   induction items as [|it t IH]; intros prefix sc acc sc' acc' H.
-  - simpl in H. inversion H; subst. split; [reflexivity|]. intros _ x k w [].
+  - simpl in H. inversion H; subst. split; [reflexivity|]. split; [intros _ x k w []|intros _ x w dp []].
   - destruct acc as [[nets asg] procs].
     destruct it as [x w|x w init|x|x w dp|l e|ev s|s|mn params iname conns]; simpl in H;
       try (specialize (IH _ _ _ _ _ H); exact IH).
-    + (* IWire *)
-      apply IH in H as [H1 H2]. split.
-      * intros y Hy. unfold decl_names in Hy. simpl in Hy. rewrite H1 by tauto. apply lookup_cons_ne. intros ->. tauto.
-      * intros ND y k w' Hy K. unfold decl_names in ND. simpl in ND, Hy. inversion ND as [|? ? Hn ND']; subst.
-        destruct Hy as [Hy|Hy].
-        -- inversion Hy; subst. simpl in K. inversion K; subst. red. rewrite (H1 _ Hn), lookup_cons_eq. eauto.
-        -- exact (H2 ND' _ _ _ Hy K).
-    + (* IReg *)
-      apply IH in H as [H1 H2]. split.
-      * intros y Hy. unfold decl_names in Hy. simpl in Hy. rewrite H1 by tauto. apply lookup_cons_ne. intros ->. tauto.
-      * intros ND y k w' Hy K. unfold decl_names in ND. simpl in ND, Hy. inversion ND as [|? ? Hn ND']; subst.
-        destruct Hy as [Hy|Hy].
-        -- inversion Hy; subst. simpl in K. inversion K; subst. red. rewrite (H1 _ Hn), lookup_cons_eq. eauto.
-        -- exact (H2 ND' _ _ _ Hy K).
-    + (* IInteger *)
-      apply IH in H as [H1 H2]. split.
-      * intros y Hy. unfold decl_names in Hy. simpl in Hy. rewrite H1 by tauto. apply lookup_cons_ne. intros ->. tauto.
-      * intros ND y k w' Hy K. unfold decl_names in ND. simpl in ND, Hy. inversion ND as [|? ? Hn ND']; subst.
-        destruct Hy as [Hy|Hy].
-        -- inversion Hy; subst. simpl in K. inversion K; subst. red. rewrite (H1 _ Hn), lookup_cons_eq. eauto.
-        -- exact (H2 ND' _ _ _ Hy K).
-    + (* IMem: declares a name that gets no binding *)
-      apply IH in H as [H1 H2]. split.
-      * intros y Hy. unfold decl_names in Hy. simpl in Hy. apply H1. tauto.
-      * intros ND y k w' Hy K. unfold decl_names in ND. simpl in ND, Hy. inversion ND as [|? ? Hn ND']; subst.
-        destruct Hy as [Hy|Hy]; [inversion Hy; subst; discriminate|]. exact (H2 ND' _ _ _ Hy K).
-    + (* IInst *)
-      apply IH in H as [H1 H2]. split.
-      * intros y Hy. unfold decl_names in Hy. simpl in Hy. apply H1. tauto.
-      * intros ND y k w' Hy K. unfold decl_names in ND. simpl in ND, Hy. inversion ND as [|? ? Hn ND']; subst.
-        destruct Hy as [Hy|Hy]; [inversion Hy; subst; discriminate|]. exact (H2 ND' _ _ _ Hy K).
+    (* IWire, IReg, IInteger, IMem (bound to its block of word nets), IInst (declares a name, binds nothing) *)
+    all: apply IH in H as (H1 & H2 & H3); split; [|split].
+    all: try (intros y Hy; unfold decl_names in Hy; simpl in Hy;
+              first [ rewrite H1 by tauto; apply lookup_cons_ne; intros ->; tauto | apply H1; tauto ]).
+    all: try (intros ND y k w' Hy K; unfold decl_names in ND; simpl in ND, Hy; inversion ND as [|? ? Hn ND']; subst;
+              destruct Hy as [Hy|Hy]; [|exact (H2 ND' _ _ _ Hy K)];
+              inversion Hy; subst; simpl in K; inversion K; subst; red; rewrite (H1 _ Hn), lookup_cons_eq; eauto).
+    all: intros ND y w' dp' Hy; unfold decl_names in ND; simpl in ND, Hy; inversion ND as [|? ? Hn ND']; subst;
+         (destruct Hy as [Hy|Hy]; [|exact (H3 ND' _ _ _ Hy)]); inversion Hy; subst; rewrite (H1 _ Hn), lookup_cons_eq; eauto.
 Qed.
 
 Lemma top_ports_spec : forall ports sc acc sc' acc',
@@ -144,7 +139,7 @@ Proof.
   - simpl in H.
     destruct (find (fun c : string * expr => String.eqb (fst c) (p_name p)) conns) as [[s e]|]; [|discriminate].
     destruct e as [x| | | | | | | | | |]; try discriminate.
-    destruct (lookup parent x) as [[i w sg|v]|]; try discriminate.
+    destruct (lookup parent x) as [[i w sg|v|mb mw md]|]; try discriminate.
     destruct (w =? p_width p) eqn:W; [|discriminate]. apply Z.eqb_eq in W. subst w.
     apply IH in H as [H1 H2]. split.
     + intros y Hy. simpl in Hy. rewrite H1 by tauto. apply lookup_cons_ne. intros ->. tauto.
@@ -199,18 +194,22 @@ Proof.
     + apply in_flat_map in HI as (it & H1 & H2). destruct it; simpl in H2; try contradiction; destruct H2 as [H2|[]]; discriminate.
   - intros x w dp HI. apply in_app_or in HI as [HI|HI].
     + apply in_map_iff in HI as (p & Hp & _). discriminate.
-    + apply in_flat_map in HI as (it & H1 & H2). specialize (Hit _ H1).
+    + apply in_flat_map in HI as (it & H1 & H2).
+      pose proof (wfm_items _ _ _ (wf_modules _ _ HWF _ Hm) _ H1) as Hok.
       destruct it; simpl in H2; try contradiction; destruct H2 as [H2|[]]; try discriminate.
+      inversion H2; subst. inversion Hok; subst. assumption.
 Qed.
 
 Lemma scope_ok_build : forall m sc0 sc prefix acc0 acc,
   In m d -> (forall x, ~ In x (map p_name (m_ports m)) -> lookup sc0 x = None \/ True) ->
   (forall p, In p (m_ports m) -> binds sc0 (p_name p) (p_width p)) ->
-  declare prefix (m_items m) sc0 acc0 = (sc, acc) -> scope_ok (decls m) sc.
+  declare prefix (m_items m) sc0 acc0 = (sc, acc) -> scope_ok (decls m) sc /\ mem_ok (decls m) sc.
 Proof.
   intros m sc0 sc prefix acc0 acc Hm _ Hports Hd.
   pose proof (decls_nodup _ Hm) as ND. rewrite (decls_shape _ Hm) in *. rewrite map_app in ND.
-  apply declare_spec in Hd as [D1 D2].
+  apply declare_spec in Hd as (D1 & D2 & D3).
+  split; [|intros x w dp HI; apply in_app_or in HI as [HI|HI];
+           [apply in_map_iff in HI as (p & Hp & _); discriminate|apply NoDup_app_r in ND; exact (D3 ND _ _ _ HI)]].
   intros x k w HI K. apply in_app_or in HI as [HI|HI].
   - apply in_map_iff in HI as (p & Hp & Hin). inversion Hp; subst. simpl in K. inversion K; subst.
     destruct (Hports _ Hin) as (i & sg & L). red. rewrite D1; [eauto|].
@@ -249,10 +248,10 @@ Qed.
 
 Lemma elab_items_total : forall r m, In m d -> (rank (m_name m) <= r)%nat ->
   forall its, (forall it, In it its -> In it (m_items m)) ->
-  forall fuel prefix sc acc, scope_ok (decls m) sc -> (S (length its) + r * S (max_items d) <= fuel)%nat ->
+  forall fuel prefix sc acc, scope_ok (decls m) sc -> mem_ok (decls m) sc -> (S (length its) + r * S (max_items d) <= fuel)%nat ->
   exists acc', elab_items d fuel prefix its sc acc = inr acc'.
 Proof.
-  induction r as [|r IHr]; intros m Hm Hr; (induction its as [|it t IHt]; intros Hsub fuel prefix sc acc SO Hfuel;
+  induction r as [|r IHr]; intros m Hm Hr; (induction its as [|it t IHt]; intros Hsub fuel prefix sc acc SO MO Hfuel;
     [destruct fuel as [|f]; [simpl in Hfuel; lia|]; simpl; eauto|]).
   all: destruct fuel as [|f]; [simpl in Hfuel; lia|].
   all: pose proof (plain_env_decls _ Hm) as PE.
@@ -262,20 +261,20 @@ Proof.
   all: assert (Hf' : (S (length t) + (S (max_items d) * 0) <= f)%nat) by (simpl in Hfuel; lia).
   all: destruct acc as [[nets asg] procs].
   all: destruct it as [x w|x w init|x|x w dp|l e|ev s|s|mn params iname conns]; cbn [elab_items].
-  all: try (apply IHt; [exact Hsub'|exact SO|simpl in Hfuel; lia]).
+  all: try (apply IHt; [exact Hsub'|exact SO|exact MO|simpl in Hfuel; lia]).
   all: try (simpl in Hfr; contradiction).
   (* the remaining goals come in pairs: r = 0 and r = S r *)
   all: try (inversion Hok as [| | | |l' e' Hl He| | | |]; subst;
-            destruct (res_lval_total _ _ _ _ PE SO Hl) as [l1 ->]; destruct (res_expr_total _ _ _ PE SO He) as [e1 ->];
-            apply IHt; [exact Hsub'|exact SO|simpl in Hfuel; lia]).
+            destruct (res_lval_total _ _ _ _ PE SO MO Hl) as [[l1 ->]|(Hpf & _)]; [|discriminate]; destruct (res_expr_total _ _ _ PE SO MO He) as [e1 ->];
+            apply IHt; [exact Hsub'|exact SO|exact MO|simpl in Hfuel; lia]).
   all: try (inversion Hok as [| | | | | |s' Hs| |]; subst;
-            destruct (res_stmt_total _ _ _ PE SO Hs) as [s1 ->];
-            apply IHt; [exact Hsub'|exact SO|simpl in Hfuel; lia]).
+            destruct (res_stmt_total _ _ _ PE SO MO Hs) as [s1 ->];
+            apply IHt; [exact Hsub'|exact SO|exact MO|simpl in Hfuel; lia]).
   all: try (inversion Hok as [| | | | |ev' s' Hev Hs| | |]; subst;
-            destruct (res_stmt_total _ _ _ PE SO Hs) as [s1 ->];
-            destruct ev as [c|c|]; [|simpl in Hfr; contradiction|apply IHt; [exact Hsub'|exact SO|simpl in Hfuel; lia]];
+            destruct (res_stmt_total _ _ _ PE SO MO Hs) as [s1 ->];
+            destruct ev as [c|c|]; [|simpl in Hfr; contradiction|apply IHt; [exact Hsub'|exact SO|exact MO|simpl in Hfuel; lia]];
             inversion Hev as [|c' k HI K|]; subst; destruct (SO _ _ _ HI K) as (i & sg & L); rewrite L;
-            apply IHt; [exact Hsub'|exact SO|simpl in Hfuel; lia]).
+            apply IHt; [exact Hsub'|exact SO|exact MO|simpl in Hfuel; lia]).
   - (* instance, r = 0: impossible *)
     exfalso. inversion Hok as [| | | | | | |mn' params' iname' conns' c Hdef _ _ _ _ _|mn' params' iname' conns' Hext]; subst; [|contradiction].
     pose proof (Hrank _ _ _ _ _ _ Hm (Hsub _ (or_introl eq_refl)) Hdef). lia.
@@ -287,15 +286,15 @@ Proof.
     destruct (bind_ports_total iname conns sc (m_ports c) [] (conns_bind _ _ _ _ _ _ _ Hm SO Hok Hdef)) as [csc0 B].
     rewrite B. simpl in Hfr. subst params. cbn [fold_left].
     destruct (declare (String.append prefix (String.append iname ".")) (m_items c) csc0 (nets, asg, procs)) as [csc acc1] eqn:Dc.
-    assert (SOc : scope_ok (decls c) csc).
+    assert (SOc : scope_ok (decls c) csc /\ mem_ok (decls c) csc).
     { eapply scope_ok_build with (sc0 := csc0); [exact Hc1|auto| |exact Dc].
       apply (proj2 (bind_ports_spec _ _ _ _ _ _ B)). apply decls_ports_NoDup. now apply decls_nodup. }
     assert (Hrc : (rank (m_name c) <= r)%nat).
     { pose proof (Hrank _ _ _ _ _ _ Hm (Hsub _ (or_introl eq_refl)) Hdef). rewrite Hc2. lia. }
     pose proof (max_items_ge _ _ Hc1) as Hmax.
-    destruct (IHr c Hc1 Hrc (m_items c) (fun it H => H) f (String.append prefix (String.append iname ".")) csc acc1 SOc) as [acc2 E2].
+    destruct (IHr c Hc1 Hrc (m_items c) (fun it H => H) f (String.append prefix (String.append iname ".")) csc acc1 (proj1 SOc) (proj2 SOc)) as [acc2 E2].
     { simpl in Hfuel. lia. }
-    rewrite E2. apply IHt; [exact Hsub'|exact SO|simpl in Hfuel; lia].
+    rewrite E2. apply IHt; [exact Hsub'|exact SO|exact MO|simpl in Hfuel; lia].
 Qed.
 
 End Total.
@@ -309,11 +308,11 @@ Proof.
   unfold elaborate. rewrite (find_module_unique _ _ (wf_names _ _ HWF) Hm).
   destruct (top_ports (m_ports m) [] ([], [], [])) as [sc0 acc0] eqn:TP.
   destruct (declare "" (m_items m) sc0 acc0) as [sc acc1] eqn:Dc.
-  assert (SO : scope_ok (decls m) sc).
+  assert (SO : scope_ok (decls m) sc /\ mem_ok (decls m) sc).
   { eapply scope_ok_build with (sc0 := sc0); [exact HWF|exact HF|exact Hm|auto| |exact Dc].
     apply (proj2 (top_ports_spec _ _ _ _ _ TP)). apply decls_ports_NoDup. now apply (decls_nodup d HWF). }
   pose proof (max_items_ge _ _ Hm) as Hmax.
-  destruct (elab_items_total d HWF HF rank Hdec (length d) m Hm (Hbound _ Hm) (m_items m) (fun it H => H) fuel "" sc acc1 SO) as [[[nets asg] procs] E].
+  destruct (elab_items_total d HWF HF rank Hdec (length d) m Hm (Hbound _ Hm) (m_items m) (fun it H => H) fuel "" sc acc1 (proj1 SO) (proj2 SO)) as [[[nets asg] procs] E].
   { unfold elab_fuel in Hfuel. simpl in Hfuel. lia. }
   rewrite E. eauto.
 Qed.
